@@ -981,6 +981,11 @@ func (e *lbEngine) dropDead(fn *ssa.Function, b *ssa.BasicBlock, s *lstate) *lst
 		if live[v] {
 			continue
 		}
+		if ex, ok := v.(*ssa.Extract); ok {
+			if _, isNext := ex.Tuple.(*ssa.Next); isNext {
+				continue // index of a range loop: known from the loop test on, before the extract that names it
+			}
+		}
 		if phi, ok := v.(*ssa.Phi); ok && phi.Block() == b {
 			continue
 		}
